@@ -595,7 +595,10 @@ int main(void)
 			V_ASSERT(vf_failed, "[C18] tilde expansion only fails when an allocation failed");
 			V_WITNESS("failure path");
 		} else {
+			V_ASSERT(!vf_failed, "[C18] a tilde expansion whose allocation failed reports failure (the unexpanded name is not handed back as a result)");
 			V_ASSERT(V_R_OK(r, 1), "[C18] the expanded name is a live string");
+			if (vin_name[0] == '~' && vin_known)
+				V_ASSERT(r[0] == '/' && r[1] == 'h', "[C17] for an existing account a result starts with the home directory, whatever happened on the way (never the unexpanded name)");
 			V_WITNESS("success path");
 		}
 	}
